@@ -117,8 +117,8 @@ def gen_single_programs(tier: str, rnd: random.Random) -> list[dict]:
     fills = ["random", "random", "small", "ff"] if quick else ["random"] * 6 + ["small", "small", "ff", "zero", "7f", "80"]
     for fam, tag, rated, refused in cfgs:
         for mode in fills:
-            for history in ("bulk_first", "single_first_then_battery"):
-                if fam == "DT" and history != "bulk_first":
+            for history in ("bulk_first", "single_first_then_battery", "two_polls"):
+                if fam == "DT" and history == "single_first_then_battery":
                     continue
                 serial = serial_for(tag)
                 blocks = ET_BLOCKS if fam == "ET" else DT_BLOCKS
@@ -137,8 +137,12 @@ def gen_single_programs(tier: str, rnd: random.Random) -> list[dict]:
                 elif fam == "ET" and mode == "random":
                     regs[35184] = rnd.choice([1, 2, 3])
                 calls += [{"sim": {"set": {str(k): v for k, v in regs.items()}}},
-                          {"api": "read_runtime_data", "span": {"decode": False}}, {"api": "table:sensors"},
-                          {"api": "ALLSENSORS"}]
+                          {"api": "read_runtime_data", "span": {"decode": False}}, {"api": "table:sensors"}]
+                if history == "two_polls":
+                    # what is listed may change again with every poll (a refused block is asked for again, a flag re-derived)
+                    calls += [{"api": "read_runtime_data", "span": {"decode": False}}, {"api": "table:sensors"},
+                              {"api": "read_runtime_data", "span": {"decode": False}}, {"api": "table:sensors"}]
+                calls += [{"api": "ALLSENSORS"}]
                 progs.append({"inv": [{"family": fam, "sim": sim, "retries": 0}], "calls": calls,
                               "cfg": {"fam": fam, "tag": tag, "history": history, "fill": mode}})
     return progs
